@@ -25,6 +25,7 @@ TLA_CP = "/opt/veriftools/tla/tla2tools.jar:/opt/veriftools/tla/CommunityModules
 NCPU = min(16, os.cpu_count() or 4)
 SEED = int(os.environ.get("VERIF_SEED", "1") or 1)
 GUARD = "MATTSTA_VARINT_VERIF"
+SHIM_LD = ["-Wl,--wrap=malloc,--wrap=calloc,--wrap=realloc,--wrap=free"]
 
 TIERS = {
     # what CMakeCache (RelWithDebInfo) + src/CMakeLists.txt produce
@@ -266,7 +267,7 @@ def _match(entry, rej):
 
 def sig(rej):
     ev = rej.get("event") or {}
-    keys = ("e", "fam", "codec", "api", "put", "get", "op", "kind", "mode", "prec", "cfg", "word", "enc", "reader")
+    keys = ("e", "fam", "codec", "param", "api", "put", "get", "op", "kind", "mode", "prec", "cfg", "word", "enc", "reader")
     return (rej["prop"], rej["why"]) + tuple(str(ev.get(k)) for k in keys if k in ev)
 
 
